@@ -126,7 +126,14 @@ func perturbEdited(r *gen.RNG, p gen.Profile, a any, h ref.Hunk) (any, string, b
 		case 4:
 			kind = "change-removed-element"
 			if len(h.Remove) > 0 && i >= 0 && i < len(l) {
-				l[i] = other(l[i])
+				j := i + r.Intn(len(h.Remove)) // any element of the removed run, not only its first
+				if j >= len(l) {
+					j = i
+				}
+				if j > i {
+					kind = "change-later-removed-element"
+				}
+				l[j] = other(l[j])
 				return l
 			}
 		case 5:
